@@ -241,6 +241,61 @@ theorem add_spec (cfg : Config) (x : Ctx) (c : Nat) (p : Peer) (req params : Jso
     refine ⟨?_, by rw [hf.2.1]⟩
     rw [← hf.1]; exact answered_sendResponse _ _ _
 
+/-- The "exactly when" of the property text, for a request that can be answered (string or number
+    id): the requester receives the success response iff the path was free and the index did not
+    refuse. -/
+theorem add_success_iff (cfg : Config) (x : Ctx) (c : Nat) (p : Peer) (req params : Json) (path : Bytes)
+    (tns : Nat) (g : Nat × Nat × Nat)
+    (hwf : WF x.st) (hp : findPeer x.st.peers c = some p)
+    (hm : req.getItem (k "method") = some (.str (k "add")))
+    (hparams : req.getItem (k "params") = some params)
+    (hpath : params.getItem (k "path") = some (.str path))
+    (horigin : (cfg.localOnlyAdd && !p.isLocal) = false)
+    (hfo : fetchOnlyOk (params.getItem (k "fetchOnly")) = true)
+    (hto : getTimeout cfg (params.getItem (k "timeout")) cfg.defaultTimeoutNs = .ns tns)
+    (hacc : fillAccess cfg (params.getItem (k "value")).isSome (params.getItem (k "access")) = .ok g)
+    (hid : answerable req) :
+    (∃ j b, successFromRequest req = some j ∧
+      (parseJsonRpc cfg x c req).1.out.head? = some (Obs.send c j b)) ↔
+    (absGet x.st path = none ∧ x.indexFull = false) := by
+  obtain ⟨h1, h2, h3⟩ := add_spec cfg x c p req params path tns g hwf hp hm hparams hpath horigin hfo hto hacc
+  obtain ⟨js, hjs, hjsne⟩ := successFromRequest_isSome hid
+  have hclash : ∀ je, hasError je → ∀ b b', some (Obs.send c je b) = some (Obs.send c js b') → False := by
+    intro je hje b b' h
+    have := Option.some.inj h
+    injection this with _ hj _
+    subst hj
+    simp only [hasError, hjsne] at hje
+    cases hje
+  constructor
+  · rintro ⟨j, b, hj, hhead⟩
+    rw [hjs] at hj
+    have := Option.some.inj hj
+    subst this
+    cases hget : absGet x.st path with
+    | some i =>
+      exfalso
+      obtain ⟨je, hje, herr⟩ := errorFromRequest_isSome hid INVALID_PARAMS "exists" path
+      have hr := (h2 (by rw [hget]; rfl)).2
+      rw [hje] at hr
+      simp only at hr
+      rw [hr] at hhead
+      exact hclash je herr _ _ hhead
+    | none =>
+      cases hfull : x.indexFull with
+      | false => exact ⟨rfl, rfl⟩
+      | true =>
+        exfalso
+        obtain ⟨je, hje, herr⟩ := errorFromRequest_isSome hid INTERNAL_ERROR "reason" (k "element table full")
+        obtain ⟨b', hb'⟩ := (h3 hget hfull).1 je hje
+        rw [hb'] at hhead
+        exact hclash je herr _ _ hhead
+  · rintro ⟨hget, hfull⟩
+    obtain ⟨b, hb⟩ := (h1 hget hfull).1 js hjs
+    exact ⟨js, b, hjs, hb⟩
+
+example : answerable (mkReq "add" [0x6e]) := mkReq_answerable _ _
+
 /-- non-vacuity: a well-formed add of the free path "n" by peer 3 in `exS` (success branch), of the
     taken path "s" (exists branch), and with a refusing index (resource branch) -/
 example : ∃ (p : Peer) (tns : Nat) (g : Nat × Nat × Nat),
